@@ -4,7 +4,7 @@ CONSTANTS
   MaxOps = 10
   Amts = {1, 2}
   Mults = {2, 5}
-  Rate = 1000
+  Rate = 1260
   FStart = 1
   FEnd = 5
   MaxAmt = 4
